@@ -467,10 +467,9 @@ fn derive_func_op_shape(def: &FuncOpDef, symbol_table: &mut BTreeMap<Rc<str>, Sh
             // target must be a list, a tuple or a string
             match &target_shape {
                 Shape::List(_) | Shape::Hole(_) => {}
-                Shape::Narrowed(NarrowedShape {
-                    types: NarrowingShape::Any,
-                    ..
-                }) => {}
+                // A narrowed shape, an element of a nested list for one, may
+                // well be a list. We can not tell which candidate it is.
+                Shape::Narrowed(_) => {}
                 // Mapping over a string produces a string.
                 Shape::Str(_) => return Shape::Str(pos.clone()),
                 // Mapping over a tuple produces a tuple whose fields we
@@ -520,10 +519,7 @@ fn derive_func_op_shape(def: &FuncOpDef, symbol_table: &mut BTreeMap<Rc<str>, Sh
                     pos: pos.clone(),
                     types: NarrowingShape::Any,
                 }),
-                Shape::Narrowed(NarrowedShape {
-                    types: NarrowingShape::Any,
-                    ..
-                }) => Shape::List(NarrowedShape {
+                Shape::Narrowed(_) => Shape::Narrowed(NarrowedShape {
                     pos: pos.clone(),
                     types: NarrowingShape::Any,
                 }),
@@ -548,10 +544,7 @@ fn derive_func_op_shape(def: &FuncOpDef, symbol_table: &mut BTreeMap<Rc<str>, Sh
             // target must be a list, a tuple or a string
             match &target_shape {
                 Shape::List(_) | Shape::Tuple(_) | Shape::Str(_) | Shape::Hole(_) => {}
-                Shape::Narrowed(NarrowedShape {
-                    types: NarrowingShape::Any,
-                    ..
-                }) => {}
+                Shape::Narrowed(_) => {}
                 Shape::TypeErr(_, _) => return target_shape,
                 _ => {
                     return Shape::TypeErr(
